@@ -138,7 +138,6 @@ structure Env (K : Type) (n p m : Nat) where
   data : Data K n p m
   pre : Precond K n p m
   inner : Inner K n p m
-  factor : KBlocks K n p m → Bool
 
 /-- `update_nr_residuals`: non-regularised residuals of the scaled problem + objective diagnostics.
     (`dx` is used as a temporary by the code and is clobbered here as well.) -/
@@ -314,7 +313,7 @@ def phaseB (e : Env K n p m) (refineOn : Bool) (w : Work K n p m) (info0 : Info 
        decide (info1.regLimit ≠ st.regFinetuneLowerLimit))
   let info2 := if ft then { info1 with regLimit := st.regFinetuneLowerLimit, noPrimalUpdate := 0, noDualUpdate := 0 } else info1
   let k1 := kktScal e kkt w1 info2.rho info2.delta
-  let k2 := KKT.regFactor e.be st.kkt d k1 refineOn e.factor
+  let k2 := KKT.regFactor e.be st.kkt d k1 refineOn e.inner
   (w1, info2, k2)
 
 /-- what a failed factorisation does to ρ, δ and the regularisation limit -/
@@ -332,7 +331,7 @@ def phaseC (e : Env K n p m) (refineOn : Bool) (kkt : KKT K n p m) (w : Work K n
   let nl := d.lb.cnt
   let nu := d.ub.cnt
   let solve (r : Step K n p m) (old : Step K n p m) : Step K n p m :=
-    match KKT.solve e.be st.kkt e.inner d kkt r old refineOn with
+    match KKT.solve e.be st.kkt d kkt r old refineOn with
     | some o => o
     | none => old
   if m + nl + nu ≠ 0 then
